@@ -17,6 +17,8 @@ EVIDENCE_DIR = os.environ.get('VERIF_EVIDENCE_DIR') or os.path.join(VERIF, 'evid
 REPLAY_DIR = os.environ.get('VERIF_REPLAY_DIR') or os.path.join(VERIF, 'replays')
 KNOWN_FILE = os.path.join(VERIF, 'known_findings.json')
 DEFAULT_SEED = 20260921
+# determinism sweeps: every run's (stratum, index, outcome, event-log digest, steps, switches) is written here
+DIGEST_LOG = os.environ.get('VERIF_DIGEST_LOG')
 MASK = (1 << 64) - 1
 
 
@@ -149,6 +151,7 @@ def _worker(conn, pid, tier, base_seed):
   sys.setswitchinterval(1e-4)
   try:
     check = _load_check(pid)
+    sent_universe = False
     while True:
       msg = conn.recv()
       if msg is None:
@@ -168,6 +171,8 @@ def _worker(conn, pid, tier, base_seed):
           continue
         res = execute_one(check, scenario, {'mode': 'seeded', 'seed': seed})
         out['runs'] += 1
+        if DIGEST_LOG:
+          out.setdefault('digests', []).append((stratum, i, res.outcome, res.digest, res.steps, res.switches))
         out['steps'] += res.steps
         out['switches'] += res.switches
         out['sim_us'] += res.sim_us
@@ -202,6 +207,11 @@ def _worker(conn, pid, tier, base_seed):
                                         'decisions': res.decisions})
         if res.sample is not None and len(out['samples']) < 2:
           out['samples'].append(res.sample)
+      from . import kernel as _k
+      out['cov'] = _k.coverage_take()
+      if not sent_universe:
+        out['cov_universe'] = _k.coverage_universe()
+        sent_universe = True
       conn.send(out)
   except (EOFError, KeyboardInterrupt):
     pass
@@ -472,7 +482,7 @@ def run_check(pid, tier, base_seed=None, jobs=None, budget_s=None):
   agg = {'runs': 0, 'ok': 0, 'inconclusive': 0, 'violation_runs': 0, 'nontrivial': set(),
          'interleavings': set(), 'states': set(), 'counters': {}, 'faults': {}, 'probes': {},
          'samples': [], 'steps': 0, 'switches': 0, 'sim_us': 0, 'violations': {}, 'harness': [],
-         'by_stratum': {}, 'inconclusive_reasons': {}}
+         'by_stratum': {}, 'inconclusive_reasons': {}, 'cov': set(), 'cov_universe': {}}
 
   def on_result(out):
     for k in ('runs', 'ok', 'inconclusive', 'violation_runs', 'steps', 'switches', 'sim_us'):
@@ -488,6 +498,11 @@ def run_check(pid, tier, base_seed=None, jobs=None, budget_s=None):
     if len(agg['samples']) < 5:
       agg['samples'].extend(out['samples'][:5 - len(agg['samples'])])
     agg['harness'].extend(out['harness'])
+    agg['cov'].update(out.get('cov', ()))
+    if DIGEST_LOG:
+      agg.setdefault('digests', []).extend(out.get('digests', ()))
+    if 'cov_universe' in out:
+      agg['cov_universe'].update(out['cov_universe'])
     for v in out['violations']:
       cur = agg['violations'].get(v['key'])
       if cur is None or (v['stratum'], v['index']) < (cur['stratum'], cur['index']):
@@ -500,6 +515,10 @@ def run_check(pid, tier, base_seed=None, jobs=None, budget_s=None):
     pool.close()
   agg['harness'].extend(harness)
   search_s = time.time() - t0
+  if DIGEST_LOG:
+    with open(DIGEST_LOG, 'w') as fh:
+      for row in sorted(agg.get('digests', [])):
+        fh.write(' '.join(str(x) for x in row) + '\n')
 
   # ---- classify
   known = load_known()
@@ -564,6 +583,37 @@ def run_check(pid, tier, base_seed=None, jobs=None, budget_s=None):
   return exit_code
 
 
+def _ranges(nums):
+  out = []
+  for n in sorted(nums):
+    if out and n == out[-1][1] + 1:
+      out[-1][1] = n
+    else:
+      out.append([n, n])
+  return ','.join(str(a) if a == b else '%d-%d' % (a, b) for a, b in out)
+
+
+def line_reach(agg):
+  """which lines of the miros functions this check's runs executed (measured by a second
+  sys.monitoring tool in the workers; module-level and class-body lines run at import and are
+  not counted on either side)"""
+  uni = agg.get('cov_universe') or {}
+  hit = agg.get('cov') or set()
+  per = {}
+  for (fn, ln) in uni:
+    d = per.setdefault(fn, {'lines_in_functions': 0, 'executed': 0, 'hit': []})
+    d['lines_in_functions'] += 1
+    if (fn, ln) in hit:
+      d['executed'] += 1
+      d['hit'].append(ln)
+  out = {'measure': 'source lines inside functions of /repo/miros/*.py executed by at least one simulated run of this check'}
+  for fn in sorted(per):
+    d = per[fn]
+    out[fn] = {'lines_in_functions': d['lines_in_functions'], 'executed': d['executed'],
+               'executed_lines': _ranges(d['hit'])}
+  return out
+
+
 def write_evidence(pid, tier, base_seed, check, agg, wall, search_s, n_new, known_seen, replays, jobs):
   from . import seams
   os.makedirs(EVIDENCE_DIR, exist_ok=True)
@@ -595,6 +645,7 @@ def write_evidence(pid, tier, base_seed, check, agg, wall, search_s, n_new, know
     'stubs': ['threading.Thread', 'threading.Event', 'threading.RLock', 'queue.Queue',
               'queue.PriorityQueue', 'collections.deque (recording subclass of the real deque)',
               'time.sleep/time.time', 'datetime.now', 'uuid.uuid4', 'print/pprint'],
+    'miros_lines_executed': line_reach(agg),
     'anchors_missing': list(seams.anchors_missing),
     'tree_fingerprint': seams.fingerprint(),
     'known_findings_reobserved': known_seen,
